@@ -18,14 +18,21 @@ type Machine interface {
 
 // ReplayOpts configures ReplayGraph.
 type ReplayOpts struct {
-	New      func() Machine      // fresh implementation instance
+	New      func() Machine           // fresh implementation instance
 	NewFor   func(init State) Machine // alternative to New when the spec has several initial states
-	Abstract func(s State) string // canonical form of a spec state, comparable with Project()
+	Abstract func(s State) string     // canonical form of a spec state, comparable with Project()
 	// NonTrivial returns a key if the edge exercises the property's antecedent ("" otherwise).
 	NonTrivial func(from State, e Edge, to State) string
 	SigPrefix  string
 	MaxGroups  int // 0 = all; otherwise a deterministic sample of (state,label) groups
+	// Skip excludes behaviours starting in the given initial state.
+	Skip func(init State) bool
+	// Classify may map a mismatch to a finding-class signature ("" = use the scenario key).
+	Classify func(m Machine, got string, wants []string) string
 }
+
+// Detailer is optionally implemented by machines to explain their last observation.
+type Detailer interface{ Detail() string }
 
 // ReplayGraph executes, for every state s of the graph and every action label a
 // enabled in s, a fresh implementation through a shortest path to s and then a, and
@@ -82,6 +89,9 @@ func ReplayGraph(c *Ctx, g *Graph, o ReplayOpts) (groups int) {
 		if !c.Want(o.SigPrefix) && !c.Want(key) {
 			continue
 		}
+		if o.Skip != nil && o.Skip(g.States[initNode]) {
+			continue
+		}
 		var m Machine
 		if o.NewFor != nil {
 			in := gr.node
@@ -133,8 +143,18 @@ func ReplayGraph(c *Ctx, g *Graph, o ReplayOpts) (groups int) {
 			c.Sample(map[string]interface{}{"actions": full, "impl_state": got})
 		}
 		if !ok {
-			c.Violation(key, fmt.Sprintf("after %v the implementation is in %s but the specification allows only %v", full, got, wants),
-				map[string]interface{}{"actions": full, "got": got, "want": wants})
+			sig := key
+			if o.Classify != nil {
+				if s := o.Classify(m, got, wants); s != "" {
+					sig = s
+				}
+			}
+			det := ""
+			if d, ok := m.(Detailer); ok {
+				det = " [" + d.Detail() + "]"
+			}
+			c.Violation(sig, fmt.Sprintf("scenario %s: from %s after %v the implementation is in %s but the specification allows only %v%s", key, fmtState(g.States[initNode]), full, got, wants, det),
+				map[string]interface{}{"key": key, "init": fmtState(g.States[initNode]), "actions": full, "got": got, "want": wants})
 		}
 	}
 	c.Trace(groups)
